@@ -395,6 +395,9 @@ type strCase struct {
 	// itself. In a quiet run nothing is traced, publications are dropped without a lock, and the only thing a job does
 	// for the harness is WaitGroup.Done at its end (which orders it before the final Wait and before nothing else).
 	Quiet bool `json:"quiet"`
+	// Serial: no jitter, and every background job is awaited before the next message: the history is replayed as a
+	// sequence, only the final state comparison is of interest (Lifecycle.tla).
+	Serial bool `json:"serial"`
 }
 
 var strPayloads = []map[string]any{
@@ -491,6 +494,7 @@ func runStress(c strCase, dir string) (any, error) {
 	}()
 	vers := map[string]int{}
 	open := map[string]bool{}
+	delivered := map[string]int{}
 	for u := range names {
 		vers[u] = 1
 		open[u] = true
@@ -500,12 +504,16 @@ func runStress(c strCase, dir string) (any, error) {
 			tr.log(map[string]any{"e": "deliver", "u": u, "v": 1})
 		}
 		_ = sess.srv.DidOpen(ctx, &protocol.DidOpenTextDocumentParams{TextDocument: protocol.TextDocumentItem{URI: uris[u], Version: 1, Text: text(u, 1)}})
+		delivered[u]++
+		if c.Serial {
+			sess.ctl.waitJobs(string(uris[u]), delivered[u], 60*time.Second)
+		}
 	}
 	var opIndex, nreqA atomic.Int32
 	_, hangs := timed(45*time.Second, func() {
 		for i, op := range c.Ops {
 			opIndex.Store(int32(i))
-			if rng.Intn(4) == 0 {
+			if !c.Serial && rng.Intn(4) == 0 {
 				time.Sleep(time.Duration(rng.Intn(300)) * time.Microsecond) // seeded jitter: vary which steps of the background jobs the next message meets
 			}
 			u := uris[op.URI]
@@ -523,6 +531,12 @@ func runStress(c strCase, dir string) (any, error) {
 				_ = sess.srv.DidChange(ctx, &protocol.DidChangeTextDocumentParams{
 					TextDocument:   protocol.VersionedTextDocumentIdentifier{TextDocumentIdentifier: protocol.TextDocumentIdentifier{URI: u}},
 					ContentChanges: []protocol.TextDocumentContentChangeEvent{ch}})
+				if open[op.URI] {
+					delivered[op.URI]++
+					if c.Serial {
+						sess.ctl.waitJobs(string(u), delivered[op.URI], 60*time.Second)
+					}
+				}
 			case "config":
 				p := strPayloads[op.Arg%len(strPayloads)]
 				client.mu.Lock()
@@ -546,6 +560,10 @@ func runStress(c strCase, dir string) (any, error) {
 				}
 				_ = sess.srv.DidOpen(ctx, &protocol.DidOpenTextDocumentParams{TextDocument: protocol.TextDocumentItem{URI: u, Version: 1, Text: text(op.URI, vers[op.URI])}})
 				open[op.URI] = true
+				delivered[op.URI]++
+				if c.Serial {
+					sess.ctl.waitJobs(string(u), delivered[op.URI], 60*time.Second)
+				}
 			case "request":
 				nreqA.Add(1)
 				if op.Kind == "executeCommand" {
